@@ -421,7 +421,12 @@ func Coordinate(self string, ck *Check, tier string, seed int64, verifDir string
 		if errs[i] != "" {
 			engineErr += fmt.Sprintf("shard %d: %s\n", i, errs[i])
 		}
-		merged.Generated = o.Generated // every worker walks the whole space
+		if merged.Generated != 0 && o.Generated != merged.Generated && o.Complete {
+			engineErr += fmt.Sprintf("shard %d walked %d enumeration units, another shard %d: the enumeration is not deterministic\n", i, o.Generated, merged.Generated)
+		}
+		if o.Complete {
+			merged.Generated = o.Generated // every worker walks the whole space
+		}
 		merged.Evaluations += o.Evaluations
 		merged.NontrivialN += o.NontrivialN
 		merged.DistinctN += o.DistinctN
